@@ -63,6 +63,7 @@ EXTENDS Naturals, Sequences, FiniteSets, TLC, Json
 CONSTANTS MaxCalls,    \* Sleep/Wake calls (all callers together)
           MaxPolls,    \* timer firings / poll activities
           MaxRestarts, \* process restarts (new manager on the same state file)
+          PollErr,     \* TRUE: the reconnect callback (OnPoll) may also return an error (bare-manager replay)
           Dev, Emit
 
 DevNames == {"DevPollCallbackAfterWake", "DevStalePollEnd", "DevWakeNoPersist", "DevSleepWhilePolling",
@@ -210,10 +211,12 @@ PollCallback(p) ==
 PollWait(p) ==
   /\ poll[p].pc = "inCallback"
   /\ poll' = [poll EXCEPT ![p].pc = "relock"]
-  /\ LET keep == st = "AWAKE" /\ "DevAgentPollEndIgnoresWake" \notin Dev IN
+  /\ \E f \in (IF PollErr THEN BOOLEAN ELSE {FALSE}) :   \* f: OnPoll returns an error - logged by Poll, no other effect
+     LET keep == st = "AWAKE" /\ "DevAgentPollEndIgnoresWake" \notin Dev IN
      /\ conn' = IF keep THEN conn ELSE FALSE
      /\ undone' = (undone \/ (st = "AWAKE" /\ lock = "free" /\ ~keep))
-     /\ last' = [act |-> "PollWait", p |-> p, res |-> IF keep THEN "woken" ELSE "asleep", cbs |-> NoCb, handoff |-> "none"]
+     /\ last' = [act |-> "PollWait", p |-> p, res |-> IF keep THEN "woken" ELSE "asleep", cbs |-> NoCb, handoff |-> "none",
+                 fail |-> f]
   /\ UNCHANGED <<st, file, flp, lock, waiter, armed, tset, nextSet, lp, pending, npolls, ncalls, nrestarts, wakes, stale>>
 
 (* Manager.Poll, second critical section *)
